@@ -2144,16 +2144,20 @@ def _equidistant_point(points):
 
 def _timelike_eigenvectors(matrices, eigvals, eigvecs):
     """Fix up the eigenvectors of an array of isometries so that every
-    eigenspace which contains a timelike vector is represented by one.
+    eigenspace which contains a timelike or lightlike vector is
+    represented by one.
 
-    If an eigenvalue is repeated, its eigenspace can contain timelike
+    If an eigenvalue is repeated, its eigenspace can contain such
     vectors even though none of the basis vectors returned by the
-    eigenvalue routine is timelike (for instance, the fixed geodesic
-    of a rotation of H^3 can be spanned by two spacelike vectors, or
-    by a complex conjugate pair). In that case the first basis vector
-    is replaced by the Minkowski-orthogonal projection of (1, 0, ...,
-    0) to the eigenspace, which is timelike whenever any vector in the
-    eigenspace is.
+    eigenvalue routine is one (for instance, the fixed geodesic of a
+    rotation of H^3 can be spanned by two spacelike vectors, or by a
+    complex conjugate pair; the 1-eigenspace of a parabolic isometry
+    of H^3 contains a single lightlike line, which the basis need not
+    contain). In that case the last basis vector is replaced by the
+    vector of the eigenspace on which the Minkowski form is smallest
+    (for a timelike eigenspace, this is the point closest to (1, 0,
+    ..., 0)). The last one, since it is preferred when eigenvectors
+    are sorted.
 
     """
     if not utils.types.is_linalg_type(eigvecs):
@@ -2173,16 +2177,28 @@ def _timelike_eigenvectors(matrices, eigvals, eigvecs):
                 continue
             visited |= cluster
 
-            # real vectors spanning the (complexified) eigenspace
-            basis = np.concatenate([np.real(vecs[:, cluster]),
-                                    np.imag(vecs[:, cluster])], axis=-1)
-            gram = basis.T @ form @ basis
-            vec = basis @ (np.linalg.pinv(gram) @ (basis.T @ form @ origin))
+            if np.abs(np.imag(vals[cluster])).max() >= CLUSTER_THRESHOLD:
+                continue
+
+            # orthonormal basis of the eigenspace (computed from the
+            # matrix: the eigenvectors returned for a repeated
+            # eigenvalue need not span it)
+            shifted = (np.real(matrices[ind]) -
+                       np.real(vals[i]) * np.identity(dim))
+            _, sing, basis = np.linalg.svd(shifted)
+            frame = basis[sing < CLUSTER_THRESHOLD * max(1, sing[0])].T
+            if frame.shape[-1] == 0:
+                continue
+
+            form_vals, form_vecs = np.linalg.eigh(frame.T @ form @ frame)
+            vec = frame @ form_vecs[:, 0]
+            if vec @ origin < 0:
+                vec = -vec
 
             residual = matrices[ind] @ vec - np.real(vals[i]) * vec
-            if (vec @ form @ vec < -ERROR_THRESHOLD * (vec @ vec) and
-                np.abs(residual).max() < CLUSTER_THRESHOLD * np.abs(vec).max()):
-                fixed_vecs[ind][:, i] = vec
+            if (form_vals[0] <= ERROR_THRESHOLD and
+                np.abs(residual).max() < CLUSTER_THRESHOLD):
+                fixed_vecs[ind][:, np.nonzero(cluster)[0][-1]] = vec
 
     return fixed_vecs
 
